@@ -14,33 +14,33 @@ CLAIMED = {
  "C04": ("panic-site cone enumeration over MIR asserts/calls, interval dischargers over constants and dominating guards, named class rules, taint of type extremes into unchecked score arithmetic",
          "decides absence of undischarged crash sites in the cone of search::search and TimeStrategy::new (C04-CONE), classification of every unchecked score-arithmetic call site incl. clamp-then-arith (C04-EVALOP) the return structure (C04-RET) and that the root node always searches a move (C04-ROOT, premise of the non-empty root line); does not decide termination or legality of an unverified hash move"),
  "C05": ("typestate abstract interpretation of UciCommand arms + lock-order graph",
-         "decides the clauses C05-TS/SET/LOCK/NOBLOCK/HELD/STOPFLAG/LIMIT/PANIC (the stop flag is only raised, raised whenever a handle is installed and honoured by the poll, only the payload-free time control is searched without a limit, the search thread's cone has no undischarged panic site, no guard other than the state mutex held across the search, no reachable latch wait without a pending set, set-after-bestmove, acyclic lock order, non-blocking arms) assuming the search terminates; not that each go is answered at its limit"),
+         "decides the clauses C05-TS/SET/LOCK/NOBLOCK/HELD/STOPFLAG/LIMIT/PANIC/LATCH/GOARGS (every notifier of the latch holds the waiter's mutex, the clock arguments of go are read by a signed parser, the stop flag is only raised, raised whenever a handle is installed and honoured by the poll, only the payload-free time control is searched without a limit, the search thread's cone has no undischarged panic site, no guard other than the state mutex held across the search, no reachable latch wait without a pending set, set-after-bestmove, acyclic lock order, non-blocking arms) assuming the search terminates; not that each go is answered at its limit"),
  "C06": ("panic-site cone of the FEN reader with alphabet/match exhaustiveness checks, width-guard dominance, inverse letter tables extracted by path-sensitive symbolic walk",
-         "decides the reader's panic-freedom on arbitrary text and rank-width rejection (C06-CONE/WIDTH), reader/writer letter-table agreement (C06-TABLES), that the key of a position read from FEN equals the key maintained move by move (C06-KEY = the C03 clauses) and that the scalar fields are written unconditionally from their own Game field with inverse move-number formulas (C06-FIELDS); not the round-trip equalities as such"),
+         "decides the reader's panic-freedom on arbitrary text and rank-width rejection (C06-CONE/WIDTH), the writer's panic-freedom incl. fixed-capacity strings (C06-WCONE), reader/writer letter-table agreement (C06-TABLES), that the key of a position read from FEN equals the key maintained move by move (C06-KEY = the C03 clauses) and that the scalar fields are written unconditionally from their own Game field with inverse move-number formulas (C06-FIELDS); not the round-trip equalities as such"),
  "C07": ("constant relations (N = variants), get_unchecked index provenance, numeric evaluation of extracted shift/mask pairs on all 64 squares, exhaustive enumeration of the evaluated magic constants (107,648 cases) by the analyser",
-         "decides 'every lookup lands inside its table' (C07-N/UNCHK/SQ/MAGIC), the wrap-mask mechanism (C07-WRAP), filler/lookup agreement (C07-SAMEIDX), that the filler stores an entry for every blocker subset (C07-FILL) that squares-between is non-empty only under an alignment test (C07-BETWEEN) that leaper sets exclude the origin (C07-ORIGIN) and that the loop-free pawn and knight generators, evaluated by the analyser for every origin square and colour, equal the geometric definition (C07-LEAPGEN); not that the ray walker and the king generator (loops) compute the geometric definition"),
+         "decides 'every lookup lands inside its table' (C07-N/UNCHK/SQ/MAGIC), the wrap-mask mechanism (C07-WRAP), filler/lookup agreement (C07-SAMEIDX), that the filler stores an entry for every blocker subset (C07-FILL) that squares-between is non-empty only under an alignment test and that a walk starting on an end square removes it again (C07-BETWEEN) that leaper sets exclude the origin (C07-ORIGIN) and that the loop-free pawn and knight generators, evaluated by the analyser for every origin square and colour, equal the geometric definition (C07-LEAPGEN); not that the ray walker and the king generator (loops) compute the geometric definition"),
  "C08": ("guard dominance w.r.t. the PV-node flag, PV push discipline, mirrored mate-distance conversions, induction-variable provenance",
          "decides the mechanism clauses C08-PVGUARD/PVPUSH/MATEDIST/DEPTH/MATE/ASPWIN/ROOTRET/MATECONV/ZEROWIN/MATESRC/KEY (KEY = the C03 key clauses re-reported as the premise under which the unverified table move belongs to the position, early returns only off the root, mate conversions agree numerically, no zero-window score enters the PV, mate scores only from negamax, root score returned only from inside the searched aspiration window, no hash cut-off or forward pruning in PV nodes, guarded PV extension, mate-distance pairing, depth = iteration variable, mate only with zero legal moves), not legality or length of actual lines"),
  "C09": ("Err-edge reachability at every recursive call site, poll dominance, type-level immutability",
          "decides the unwinding clauses C09-ERR/UNDO/POLL/IMM/FALLBACK/PAIR per call site (so for every poll index at once; POLL includes that the poll honours the stop flag and has no undischarged panic site of its own), not the legality of later searches on the surviving tables"),
  "C10": ("provenance of yielded values, inequality-guard dominance, forward-only stage typestate",
-         "decides the necessary clauses C10-SRC/DEDUP/STAGE/LOUD/LOUDSET/SEGMENTS (segment limits fixed before use, loud constructors emitted by the capture generator only, yielded moves come from the generated list or equal one of its elements, hash move never yielded twice, stages only advance and the parked losing captures are always revisited, captures-only picker stays loud), not the index arithmetic of the segments"),
+         "decides the necessary clauses C10-SRC/DEDUP/STAGE/LOUD/LOUDSET/SEGMENTS (segment limits fixed before use, loud constructors emitted by the capture generator only, yielded moves come from the generated list or equal one of its elements, hash move never yielded twice and never rewritten while moves are handed out, a move pulled forward advances its segment boundary on every path, stages only advance and the parked losing captures are always revisited, captures-only picker stays loud), not the index arithmetic of the segments"),
  "C11": ("abstract execution of the material predicate over all piece-count models (path-sensitive symbolic walk), shape and threshold of the fifty-move predicate, shape of the repetition scan, caller guards",
          "decides the clauses C11-MATERIAL/FIFTY/REPKEY/CALLERS/CLOCK/HISTORY/KEY (KEY = the C03 key clauses as the premise of key-equality repetition, the scan is never skipped where four reversible plies are on record, copies of a Game carry the history, halfmove clock reset exactly on captures and pawn moves, dead-material verdicts for every count model, `clock >= 100 && has a legal move`, full-key comparison over a clock-bounded newest-first window, both search functions consult all three predicates, unconditionally or with every exempted node handed to a function that runs them - decided by a value-set analysis of the depth parameter); not the exactness of the repetition verdict over all game histories; clauses whose code is not in a recognisable form are reported as not decided, without alarm"),
  "C12": ("effect analysis over the search call-graph cone, reset-covers-writes field sets, forward slice of clock reads, static-mut writer sets",
-         "decides the clauses C12-EFFECT/RESET/PERSEARCH/STATICS/SEED (no nondeterminism source influences a depth-limited search - decided path by path over the poll functions -, reset covers every field the search writes and empties every table slot, every table initialiser runs before the command loop, per-search tables, init-only statics, constant seed), not equality of two actual runs"),
+         "decides the clauses C12-EFFECT/RESET/PERSEARCH/STATICS/SEED/SELECT (go depth / go infinite select the untimed control, the first search's table has the configured size on every command order, no nondeterminism source influences a depth-limited search - decided path by path over the poll functions -, reset covers every field the search writes and empties every table slot, every table initialiser runs before the command loop, per-search tables, init-only statics, constant seed), not equality of two actual runs"),
  "C13": ("guard dominance for zero-length division, advertise/handle set agreement, constant range relations, panic-site cone of the option consumers",
          "decides the clauses C13-ZERO/ADV/RANGE/NOLOCK/CONSUME/ACCEPT/NAME/TABLE (advertised names survive the parser's normalisation, an accepted Hash value always reaches the lock attempt, no undischarged panic site in the table's own methods with a possibly empty table (TABLE), no advertised value refused by its setter, no unguarded division by the table length, advertised == handled options, min<=default<=max and overflow-free size arithmetic, try_lock only, no undischarged panic site in the functions that consume a numeric option value), not that a search after each setting completes"),
  "C14": ("flow-sensitive dataflow to min/cap shape with evaluated constants, per-arm comparison extraction, token-to-clock wiring tables",
-         "decides the limit clauses C14-CAP/EXACT/USE/WIRE/SELECT/POLL (limits written only by the constructor, no unpolled pass over the table in the search cone, time control chosen from the presence of go arguments for all 64 combinations, hard <= half of remaining after overhead, soft <= hard, movetime unchanged, correct limit polled, tokens wired to the matching colour's clock); the wall-clock clause is not decided (timing is outside static reach)"),
+         "decides the limit clauses C14-CAP/EXACT/USE/WIRE/SELECT/POLL (limits written only by the constructor, no answer of the time poll ignores the clock except the stop throttle, no unpolled pass over the table in the search cone, time control chosen from the presence of go arguments for all 64 combinations, hard <= half of remaining after overhead, soft <= hard, movetime unchanged, correct limit polled, tokens wired to the matching colour's clock); the wall-clock clause is not decided (timing is outside static reach)"),
  "C15": ("sibling agreement of incremental and from-scratch term lists, who-may-write",
          "decides the structural clauses C15-PAIR/INV/SAME/WRITERS/INIT (tables read by the accumulator initialised before the command loop, nothing updates the accumulator after the undo restore, edit/accumulator pairing, inverse updates, same term functions over all squares, writers), not numeric equality as such"),
  "C16": ("expression-shape check of the tapered blend, mirrored table construction (symbolic builders, numerically evaluated index maps), constant interval bound over evaluated parameter tables",
-         "decides the clauses C16-BLEND/MIRROR/BOUND/PACK/CONE (no undischarged panic site in the evaluation's cone incl. popcount-bounded table indices, no scan-order-dependent branch inside a piece-set loop, pack / unpack of the two-phase word agree numerically, weights w and MAX-w of one clamped w, black tables = negated rank-flipped white tables from the same definitions, per-colour terms combined with the matching sign, evaluation bound strictly inside the mate threshold), not equality of mirrored evaluations for all positions"),
+         "decides the clauses C16-BLEND/MIRROR/BOUND/PACK/CONE (no undischarged panic site in the evaluation's cone incl. popcount-bounded table indices, no scan-order-dependent branch inside a piece-set loop, pack / unpack of the two-phase word agree numerically and the packed word is never divided or shifted as a whole, every evaluation term is added on every path to the blend, weights w and MAX-w of one clamped w, black tables = negated rank-flipped white tables from the same definitions, per-colour terms combined with the matching sign, evaluation bound strictly inside the mate threshold), not equality of mirrored evaluations for all positions"),
  "C17": ("inverse letter tables by symbolic walk, numeric agreement of evaluated castling constant tables, guard dominance in expect_matching and the position handler",
-         "decides the text and table clauses C17-LETTERS/CASTLE/MATCH/FORWARD/MOVEGEN/HISTORY/REPSCAN/KEY (FORWARD, MOVEGEN, REPSCAN, KEY = the C02-FORWARD, C01, C11-REPKEY and C03 clauses re-reported as premises), not that the resulting position is the rules' position for every game (= C01 and C02 and C06)"),
+         "decides the text and table clauses C17-LETTERS/CASTLE/MATCH/FILTER/FORWARD/MOVEGEN/HISTORY/REPSCAN/KEY (FILTER = a predicate inside the move-text parser, evaluated by the analyser on every move triple legal games contain, refuses none of them; FORWARD, MOVEGEN, REPSCAN, KEY = the C02-FORWARD, C01, C11-REPKEY and C03 clauses re-reported as premises), not that the resulting position is the rules' position for every game (= C01 and C02 and C06)"),
  "C19": ("guard dominance on probe/store, index provenance, decision-table enumeration of the replacement predicate",
-         "decides the structural clauses C19-KEY/POLICY/IDX/CLEAR/ZERO/GEN/WRITERS/PREF/FILLIND (POLICY covers whole-slot stores and in-place field updates: key and data written together under the predicate), not arbitrary operation sequences"),
+         "decides the structural clauses C19-KEY/POLICY/IDX/CLEAR/ZERO/GEN/WRITERS/PREF/FILLIND (POLICY covers whole-slot stores and in-place field updates: key and data written together under the predicate; PREF enumerates the replacement predicate over age, depth, bound kind and presence of a move), not arbitrary operation sequences"),
 }
 NA = {
  "C18": "relation between a produced string and the legal-move set of an arbitrary position; available structural clauses are far too weak to stand for it (see DESIGN.md)",
